@@ -3,8 +3,10 @@ property checks use as their history generator (harness/tour.py) assume that the
 the state of the simulator.  Here that is checked: every tour (facets svc and app; the exact graph in the thorough
 tier) is executed through PrimaiteGymEnv, after every step the node's power state and countdown and the component's
 operating state, health and timers are read from the live objects, and TLC validates the sequence against
-Lifecycle.tla's own Step (spec/LifecycleTrace.tla) - power, component and health separately.  The fs facet is used as
-a history generator only (coarse; not claimed faithful).  Run: ./check EXT-lifecycle"""
+Lifecycle.tla's own Step (spec/LifecycleTrace.tla) - power, component and health separately.  Facet fs: the file t.txt
+of folder tourf (no folder / absent / present / deleted, its health, the folder's restore countdown and the number of
+deleted files of that name, which decides what a folder restore does).  The ssh facet is a history generator only.
+Run: ./check EXT-lifecycle"""
 from __future__ import annotations
 
 import random
@@ -15,10 +17,33 @@ from . import common, tlc, tour
 PW = {"ON": "ON", "OFF": "OFF", "BOOTING": "BOOT", "SHUTTING_DOWN": "SD"}
 
 
+def project_fs(node, pw: str) -> Dict[str, Any]:
+    fs = node.file_system
+    name = tour.TARGET["fs"][1]
+    fo = next((f for f in fs.folders.values() if f.name == name), None)
+    dfo = next((f for f in reversed(list(fs.deleted_folders.values())) if f.name == name), None)
+    F = fo or dfo
+    op, hs, oc, fc = ("NOFOLDER" if F is None else "ABSENT"), "GOOD", 0, 0
+    if F is not None:
+        lf = next((f for f in F.files.values() if f.name == "t.txt"), None)
+        df = next((f for f in reversed(list(F.deleted_files.values())) if f.name == "t.txt"), None)
+        if lf is not None and fo is not None:
+            op, hs = "PRESENT", lf.health_status.name
+        elif lf is not None or df is not None:
+            op, hs = "DELETED", (lf or df).health_status.name
+        oc = max(0, int(F.restore_countdown or 0))
+        nd = sum(1 for f in F.deleted_files.values() if f.name == "t.txt")
+        fc = min(1, nd) if op == "PRESENT" else min(2, nd)
+    return {"pw": pw, "pc": int((node.config.start_up_countdown if pw == "BOOT" else node.config.shut_down_countdown if pw == "SD" else 0) or 0),
+            "rs": bool(node.config.is_resetting), "op": op, "hs": hs, "fc": fc, "oc": oc}
+
+
 def project(env, facet: str) -> Dict[str, Any]:
     node_name, comp = tour.TARGET[facet]
     node = env.game.simulation.network.get_node_by_hostname(node_name)
     pw = PW[node.operating_state.name]
+    if facet == "fs":
+        return project_fs(node, pw)
     sw = node.software_manager.software.get(comp)
     d = {"pw": pw,
          "pc": int((node.config.start_up_countdown if pw == "BOOT" else node.config.shut_down_countdown if pw == "SD" else 0) or 0),
@@ -38,8 +63,6 @@ def main(tier: str, seed: int) -> int:
     for facet in ("svc", "app", "fs"):
         g = tour.graph(facet)
         chk.add_mc(f"Lifecycle({facet})", g["tlc"])
-        if facet == "fs":
-            continue
         eps, st = tour.tour(g, random.Random(seed), episode_len=300, exact=(tier != "quick"))
         chk.cov[f"tour_{facet}"] = st
         cfg, idx = tour.scenario(facet)
@@ -72,10 +95,10 @@ def main(tier: str, seed: int) -> int:
 
         ok = [t for t, (r, n) in zip(traces, res["results"]) if r == n + 1 and n >= 10]
         muts = []
-        for t, (field, val) in zip(ok[:3], (("op", "PAUSED"), ("hs", "COMPROMISED"), ("pw", "BOOT"))):
+        for t, (field, val) in zip(ok[:3], (("op", "PAUSED" if facet != "fs" else "DELETED"), ("hs", "COMPROMISED" if facet != "fs" else "CORRUPT"), ("pw", "BOOT"))):
             m = copy.deepcopy(t)
             k = len(m["ev"]) // 2
-            m["ev"][k][field] = val if m["ev"][k][field] != val else "DISABLED"
+            m["ev"][k][field] = val if m["ev"][k][field] != val else ("DISABLED" if field == "op" and facet != "fs" else "ABSENT" if field == "op" else "GOOD" if field == "hs" else "OFF")
             muts.append(m)
         if muts:
             mres = tlc.validate("LifecycleTrace", muts, cfg=f"LifecycleTrace_{facet}.cfg", chunk=8)
@@ -86,5 +109,5 @@ def main(tier: str, seed: int) -> int:
         chk.cov[f"events_{facet}"] = sum(len(t["ev"]) for t in traces)
         chk.sample({"facet": facet, "events": traces[0]["ev"][:5]})
     chk.assumptions += ["the component's timers are read as max(0, countdown) (the code lets a finished restart countdown run to -1)",
-                        "target components: the dns-server service of host b and the web-browser application of host a of harness/tour.py's scenario"]
+                        "target components: the dns-server service of host b, the web-browser application of host a and the file tourf/t.txt of host b of harness/tour.py's scenario"]
     return chk.finish()
